@@ -81,18 +81,22 @@ func (c *CmdShell) Output() io.ReadCloser { return c.outr }
 // Go runs c's [exec.Cmd].  ctx is not used; use [exec.CommandContext] or cause
 // an EOF on the [io.Reader] set via c.SetInPipe to stop Go.
 func (c *CmdShell) Go(ctx context.Context) error {
-	/* Start proxying output. */
+	/* Start the process going. */
+	if err := c.cmd.Start(); nil != err {
+		c.outw.CloseWithError(err)
+		return err
+	}
+
+	/* Proxy output until the process closes it.  This must finish before
+	we call c.cmd.Wait, which closes our ends of the output pipes and
+	discards anything we haven't yet read. */
 	var peg errgroup.Group
 	peg.Go(func() error { _, err := io.Copy(c.outw, c.sout); return err })
 	peg.Go(func() error { _, err := io.Copy(c.outw, c.serr); return err })
+	c.outw.CloseWithError(peg.Wait())
 
-	/* Start the process going. */
-	var eg errgroup.Group
-	eg.Go(func() error { return c.cmd.Run() })
-	eg.Go(func() error { return c.outw.CloseWithError(peg.Wait()) })
-
-	/* Wait until everything finishes. */
-	return eg.Wait()
+	/* Wait for the process to finish. */
+	return c.cmd.Wait()
 }
 
 // String calls c's [exec.Cmd.String].
